@@ -47,7 +47,7 @@ SAFE_BUILTINS = {
     'len': len, 'chr': chr, 'ord': ord, 'range': range, 'all': all, 'any': any, 'sorted': sorted, 'min': min, 'max': max,
     'str': str, 'int': int, 'list': list, 'tuple': tuple, 'set': set, 'frozenset': frozenset, 'bool': bool, 'repr': repr,
     'enumerate': enumerate, 'zip': zip, 'reversed': reversed, 'sum': sum, 'isinstance': isinstance, 'type': type,
-    'dict': dict, 'abs': abs, 'OrderedDict': dict, 'bytes': bytes, 'float': float, 'round': round, 'divmod': divmod, 'map': map, 'filter': filter, 'namedtuple': collections.namedtuple,
+    'dict': dict, 'abs': abs, 'OrderedDict': dict, 'bytes': bytes, 'float': float, 'round': round, 'divmod': divmod, 'map': map, 'filter': filter, 'namedtuple': collections.namedtuple, 'next': next, 'iter': iter,
 }
 SAFE_ATTR_CALLS = {
     're.escape': re.escape, 're.compile': re.compile, 're.match': re.match, 're.fullmatch': re.fullmatch, 're.search': re.search,
@@ -105,6 +105,69 @@ def pure_os(**extra):
         tgt = o.path if k.startswith('path_') else o
         setattr(tgt, k[5:] if k.startswith('path_') else k, v)
     return o
+
+
+class FakeFS(Model):
+    """An in-memory stand-in for open(): files is {path: text or bytes}; reads come from it, writes are recorded in .written
+    (path -> content) and become readable.  A missing path raises FileNotFoundError, as the real open does."""
+
+    def __init__(self, files=None):
+        self.files = dict(files or {})
+        self.written = {}
+        self.opened = []
+        fs = self
+
+        class Handle(Model):
+            def __init__(self, path, mode, newline=None):
+                self.path, self.mode, self.newline = path, mode, newline
+                self.buf = b'' if 'b' in mode else ''
+
+            def _content(self):
+                c = fs.files[self.path]
+                if isinstance(c, str) and 'b' not in self.mode and self.newline is None:
+                    c = c.replace('\r\n', '\n').replace('\r', '\n')      # text mode reads with universal newlines
+                return c
+
+            def read(self):
+                return self._content()
+
+            def readlines(self):
+                c = self._content()
+                return c.split('\n')[:-1] and [x + '\n' for x in c.split('\n')[:-1]] + ([c.split('\n')[-1]] if c.split('\n')[-1] else []) \
+                    if isinstance(c, str) else c.splitlines(True)
+
+            def __iter__(self):
+                return iter(self.readlines())
+
+            def write(self, data):
+                self.buf += data
+                fs.written[self.path] = self.buf
+                fs.files[self.path] = self.buf
+                return len(data)
+
+            def close(self):
+                return None
+
+            def __enter__(self):
+                return self
+
+            def __exit__(self, *a):
+                return None
+
+        def open_(path, mode='r', *a, **k):
+            fs.opened.append((path, mode))
+            if 'w' in mode or 'a' in mode or 'x' in mode:
+                h = Handle(path, mode)
+                if 'a' in mode and path in fs.files:
+                    h.buf = fs.files[path]
+                fs.written[path] = h.buf
+                fs.files[path] = h.buf
+                return h
+            if path not in fs.files:
+                raise FileNotFoundError(2, 'No such file or directory', path)
+            return Handle(path, mode, k.get('newline'))
+        open_._pyeval_model = True
+        self.open = open_
 
 
 def pure_sys():
@@ -581,6 +644,10 @@ class Interp:
                         any(b.split('.')[-1] == k.__name__ for b in self.prog.external_bases(args[0].cls.qn)):
                     return True      # a repo class deriving from the library class the rule's stand-in represents
             return False
+        if isinstance(fn, ast.Name) and fn.id == 'next' and 'next' not in env and args and isinstance(args[0], list) \
+                and e.args and isinstance(e.args[0], ast.GeneratorExp):
+            # next(<generator expression>, default): generator expressions are evaluated eagerly here
+            return next(iter(args[0]), *args[1:])
         if isinstance(fn, ast.Name) and fn.id in SAFE_BUILTINS and fn.id not in env and fn.id not in mod.syms:
             if fn.id in ('all', 'any', 'sorted', 'min', 'max', 'sum', 'list', 'tuple', 'set') and args and isinstance(args[0], list):
                 pass
